@@ -6,6 +6,8 @@ from ..common import tier
 def run():
     rep = run_fw("C06", kappas=2 if tier() == "quick" else 6)
     batch_phase(rep, "C06")
+    from ..repo_traces import validate_recorded
+    validate_recorded(rep, "C06", "field")
     return rep.finish()
 
 
